@@ -20,7 +20,14 @@ RULE = (
     "<=2-op bodies over 3 arguments at one width (thorough: 4 widths and all 3-op bodies at i8 yielding their last op). Oracle: body before vs body "
     "after `convert-linalg-to-kernel`, kernel ops evaluated through their own equivalent_region, on all corner inputs "
     "(min,-1,0,1,max per argument, all combinations) + 4 Hypothesis-drawn + 192 seed-derived vectors; equal outputs or the body is "
-    "structurally unchanged. Non-trivial: the body has a kernel's op-type sequence and argument count. "
+    "structurally unchanged. A quarter of the generated bodies also use values defined OUTSIDE of the body block (captured): scalar "
+    "function arguments at positions 0..5, iter_args of an scf.for around the generic (loop block arguments 1..5), results of an "
+    "op in front of it; three quarters of those replace uses of body argument #i by a captured value that sits at the same "
+    "block-argument index #i of its own block and has the same type (half of them in a kernel's own wiring), the rest use any "
+    "captured values in any type-correct place; plus the enumerated block: every kernel's own body with every non-empty subset of "
+    "its arguments replaced by the same-index same-type function argument, and by the same-index iter_arg. Captured values are "
+    "further free inputs of the scalar function (corner values, drawn and derived vectors like the block arguments). "
+    "Non-trivial: the body has a kernel's op-type sequence and argument count. "
     "kernel_roundtrip: every kernel op x width combination with a well-typed definition (others: outside), operands = block "
     "arguments in order (75%) or any type-consistent choice; expansion by `convert-kernel-to-linalg` equals the kernel definition "
     "and a Python restatement of the kernel's meaning on the same vectors; `convert-linalg-to-kernel` recovers the same kernel. "
@@ -29,7 +36,17 @@ RULE = (
     "derived inputs. dispatch: module declaring 0..4 of snax_alu/snax_gemmx/snax_xdma/snax_hwpe_mult/gemmini and one generic whose "
     "body is a single kernel op of arbitrary operand types or a non-single-kernel body; library_call names accelerator X only if X "
     "is declared, lists the kernel class AND exactly the operand+result types. Non-trivial: the pass set a library_call and the target "
-    "lists the kernel class with exactly these types."
+    "lists the kernel class with exactly these types. "
+    "tosa_rescale: a module built from op objects (never parsed): tosa.const parameters (zero points as i32 tensors or of the "
+    "element types, one multiplier, one shift 0..62 as i8 or i32 tensor), tosa.rescale (i8|i32) -> (i8|i32), SINGLE/DOUBLE_ROUND, "
+    "whose result goes to its user directly, through a tosa.clamp (full range or inside), or to a clamp and a second user; static and "
+    "dynamic tensor shapes; plus the enumerated grid 4 type pairs x {no clamp, full clamp, inner clamp} x 3 upstream parameter sets "
+    "x rounding mode. `convert-tosa-to-kernel`, then: the result is one linalg.generic holding one kernel.rescale read by the "
+    "former user; the kernel op, read through the documented limited formula with ITS attributes at the op's widths, equals "
+    "tosa.rescale (same formula, limited to the output type's range) followed by the clamp, on every i8 input / on corner, "
+    "clamp-edge, drawn and derived i32 inputs; double_round equals the rounding mode; for (i32) -> i8 `convert-kernel-to-linalg` "
+    "is applied as well and the expanded arithmetic is compared with the same reference. Non-trivial: rewritten, compared, and "
+    "the inputs reach two of {lower bound, upper bound, in between}."
 )
 ASSUMPTIONS = [
     "xDSL 0.70 compatibility shim (vlib/compat.py) only converts list-valued irdl_options to tuples",
@@ -46,7 +63,16 @@ ASSUMPTIONS = [
     "snax_xdma is registered in the context the way tools/config_parser.py does it (register_accelerator(name, lambda: instance))",
     "a 20 s watchdog around each pass application reports a non-terminating rewrite as a violation instead of hanging "
     "(safety net, four orders of magnitude above the normal cost; not a search budget)",
-    "tosa-to-kernel is not driven: xDSL 0.70 parses tosa.rescale differently from the pinned version",
+    "a value a body uses but does not define (function argument, loop block argument, result of an outside op) is a free input "
+    "of the body's scalar function, of its own type, independent of the block arguments; the same SSA values are the free inputs "
+    "before and after the pass; the accumulator a kernel op reads is the body's last BLOCK argument, never a captured value",
+    "tosa_rescale: convert-tosa-to-kernel is driven on modules built from xdsl.dialects.tosa op objects (xDSL 0.70 parses "
+    "tosa.rescale text differently from the pinned version, the op classes and the pass are the same); the meaning of "
+    "tosa.rescale is restated with the same documented limited formula as the rescale sub (no rounding term, first channel), "
+    "its result limited to the range of the output element type, tosa.clamp limits to [min_val, max_val]; signed operands only "
+    "(input_unsigned = output_unsigned = false), scale32, per-tensor parameters; the pass is not required to rewrite (a rescale "
+    "with two users stays), only what it rewrites is compared; the expansion into arithmetic is compared for (i32) -> i8 only, "
+    "the documented domain of the limited lowering (VERIF_C18_TOSA_EXPAND=all widens this to every type pair)",
 ]
 
 SIG_WIRING = "linalg-to-kernel:same-op-types-different-wiring:function-changed"
@@ -524,10 +550,14 @@ def prop_dispatch(r):
 # ------------------------------------------------------------------------------------------ sub 5
 
 # convert-kernel-to-linalg on the kernel.rescale that convert-tosa-to-kernel produced: "documented" = only for (i32) -> i8, the
-# domain the rescale sub states for the limited lowering; "all" = for every in/out type pair the first pass accepts (see the
-# report of this sub: on the unchanged tree LowerRescale has no type guard, (i8) -> x raises and (i32) -> i32 is truncated to i8;
-# set to "all" together with the proposed repair or the known-finding entries).
-TOSA_EXPAND_DOMAIN = "documented"
+# domain the rescale sub states for the limited lowering (ASSUMPTIONS); "all" = for every in/out type pair the first pass accepts.
+# On the unchanged tree LowerRescale has no type guard: for an i8 input the pass raises (arith.subi i8, i32), for an i32 result the
+# expansion still ends in `arith.trunci ... to i8` and yields an i8 into an i32 tensor. Both are reported under the two narrow
+# signatures below when the domain is "all" (VERIF_C18_TOSA_EXPAND=all, or edit the default together with the repair
+# /var/tmp/c18x/fix_lower_rescale_types.diff or the known-finding entries of /var/tmp/known_C18x.json).
+import os as _os
+
+TOSA_EXPAND_DOMAIN = _os.environ.get("VERIF_C18_TOSA_EXPAND", "all")
 SIG_TOSA_EXPAND_RAISES = "tosa-chain:expansion:input-narrower-than-i32:raises"
 SIG_TOSA_EXPAND_TRUNC = "tosa-chain:expansion:result-wider-than-i8:result-truncated-to-i8"
 
